@@ -22,6 +22,17 @@ why={
 'C17-m1':'JSON well-formedness of rebuilt objects not under contract',
 'C17-m2':'float64/int64 conversion is not modelled (reals)',
 'C18-m2':'script assembly not under contract',
+'C18-m4':'script assembly (jobScript) not under contract',
+'C03-m4':'fork expansion not under contract',
+'C05-m4':'Metadata.restartLocal not under contract (process liveness is OS state)',
+'C06-m4':'Metadata.checkedReset not under contract',
+'C07-m3':'fieldType not under contract',
+'C08-m4':'include processing (getIncludes) not under contract: termination over the include graph',
+'C13-m3':'Fork.postProcess not under contract (file system)',
+'C13-m4':'StructType.compile not under contract (duplicate output names)',
+'C17-m3':'JSON well-formedness of rebuilt objects not under contract',
+'C17-m4':'core.resolvePath not under contract',
+
 }
 rows=[]
 for d in sorted(glob.glob('/verif/seeded/*'),key=lambda x:(os.path.basename(x).split('-')[0],int(os.path.basename(x).split('-m')[1]))):
